@@ -81,6 +81,13 @@ class HidDevice:
         self.return_delay_us = None   # when gone: come back after this long
         self.faults_fired = {}
         self.writes = []              # (seq#, t_us, unit, bytes)
+        self.detections = []          # (t_us, how): the driver was told the device is gone
+        self.losses = []              # (t_us, mode)
+        self.returns = []             # t_us
+        self.open_failures_on_return = 0
+        self.on_attempt = None        # callback(t_us, ok)
+        self.on_detect = None         # callback(t_us)
+        self.on_back = None           # callback(t_us)
 
     # ---- presence ------------------------------------------------------
     def lose(self, mode="eof", return_after_us=None):
@@ -89,6 +96,7 @@ class HidDevice:
             return
         self.present = False
         self.gone_mode = mode
+        self.losses.append((self.world.now_us(), mode))
         self.world.log.add(self.loop.time(), "dev-lost", self.name, mode)
         self.on_lost()
         if return_after_us is not None:
@@ -104,8 +112,12 @@ class HidDevice:
         self.gone_mode = None
         self.generation += 1
         self.queue = []
+        self.returns.append(self.world.now_us())
+        self.open_failures_left = self.open_failures_on_return
         self.world.log.add(self.loop.time(), "dev-back", self.name, None)
         self.on_reset()
+        if self.on_back:
+            self.on_back(self.world.now_us())
 
     def on_lost(self):
         pass
@@ -122,6 +134,8 @@ class HidDevice:
                 self._bump("open-fail")
             self.open_attempts.append((t, False))
             self.world.log.add(self.loop.time(), "open", self.name, "fail")
+            if self.on_attempt:
+                self.on_attempt(t, False)
             raise OSError(errno.ENOENT, "No such device")
         self.opens += 1
         self.open_attempts.append((t, True))
@@ -129,6 +143,8 @@ class HidDevice:
         self.queue = []
         self.on_open()
         self.world.log.add(self.loop.time(), "open", self.name, "ok")
+        if self.on_attempt:
+            self.on_attempt(t, True)
         return self.fd
 
     def os_close(self, fd):
@@ -142,6 +158,9 @@ class HidDevice:
             raise OSError(errno.EBADF, "bad fd")
         if not self.present:
             self._bump("read-" + (self.gone_mode or "eof"))
+            self.detections.append((self.world.now_us(), "read"))
+            if self.on_detect:
+                self.on_detect(self.world.now_us())
             if self.gone_mode == "oserror":
                 raise OSError(errno.EIO, "Input/output error")
             return b""
@@ -159,6 +178,9 @@ class HidDevice:
             self._bump("write-oserror")
             self.lose("eof", self.return_delay_us)
         if not self.present:
+            self.detections.append((self.world.now_us(), "write"))
+            if self.on_detect:
+                self.on_detect(self.world.now_us())
             self.world.log.add(self.loop.time(), "write-fail", self.name, None)
             raise OSError(errno.ENODEV, "No such device")
         unit = self.world.unit.get()
@@ -230,7 +252,15 @@ class FakeGlob:
         self.path = path
 
     def glob(self, pattern):
-        return [self.path] if self.device.present else []
+        if self.device.present:
+            return [self.path]
+        # no matching node: the driver treats this as a failed attempt
+        d = self.device
+        d.open_attempts.append((d.world.now_us(), False))
+        d.world.log.add(d.loop.time(), "open", d.name, "no-node")
+        if d.on_attempt:
+            d.on_attempt(d.world.now_us(), False)
+        return []
 
 
 class FakeRandom:
